@@ -4,7 +4,7 @@ import nets
 
 PID = "C05"
 THEOREMS = ["basins_spec", "seed_notin", "seed_in", "basins_default_pits", "basins_upstream_closed",
-            "basins_ids_passthrough", "region_outlets_spec", "region_outlets_sorted", "basin_outlets_roundtrip"]
+            "basins_ids_passthrough", "region_outlets_spec", "region_outlets_sorted", "basin_outlets_roundtrip", "gen_fillnodata_upstream_eq"]
 RULE = ("all loop-free closed graphs with nodata on n<=4 (quick) / n<=5 (thorough) cells x every outlet subset (n<=4) "
         "x default / user ids, through basins.basins with the implementation's own and with random topological orders, "
         "and through FlwdirRaster.basins/basin_outlets (idxs, xy, ids of several dtypes, bad ids); random forests to 60 "
@@ -60,6 +60,9 @@ def _cases(tier, rng):
         dt = rng.randrange(4)
         hasids = mode == "badids" or rng.random() < 0.6
         ids = [rng.randint(1, 30000) for _ in outs] if hasids else []
+        if hasids and dt in (1, 2) and rng.random() < 0.4:
+            # wide id types carry large basin ids (e.g. Pfafstetter-style codes above 2^31)
+            ids = [rng.choice([2**31 + rng.randint(0, 9), 4050022030 - rng.randint(0, 9), rng.randint(1, 30000)]) for _ in outs]
         if mode == "badids":
             if rng.random() < 0.5:
                 ids[rng.randrange(len(ids))] = 0
@@ -118,7 +121,11 @@ def impl(case):
         dtype_ok = (v.dtype == (dt if hasids[0] else np.uint32)) and v.shape == (1, n)
         if not dtype_ok:
             return [[-3], [str(v.dtype)]]
-        return [[0], [int(x) for x in v.ravel()]]
+        st2, ol = call_impl(flw.basin_outlets, v)
+        if st2 != "ok":
+            return [[-2], ["basin_outlets:" + st2]]
+        prs = sorted(zip([int(x) for x in ol[0]], [int(x) for x in ol[1]]))
+        return [[0], [int(x) for x in v.ravel()], [p[0] for p in prs], [p[1] for p in prs]]
     if k == 504:
         from pyflwdir import core
         ds, sq, data, nodata = a
@@ -171,8 +178,14 @@ def oracle(case, out):
         if hasids[0] and (len(ids) != len(outs) or 0 in ids):
             return None if out == [[1]] else ("basins:gate", f"bad ids accepted: {out}")
         idl = ids if hasids[0] else list(range(1, len(outs) + 1))
-        exp = [[0], _labels(ds, outs, idl)]
-        return None if out == exp else ("basins:api", f"expected {exp} got {out}")
+        lab = _labels(ds, outs, idl)
+        exp = [[0], lab]
+        if out[:2] != exp:
+            return ("basins:api", f"expected {exp} got {out[:2]}")
+        # basin_outlets of that map: the cells whose downstream cell leaves the basin (or pits), every label > 0
+        prs = sorted((lab[i], i) for i in range(len(ds)) if ds[i] >= 0 and lab[i] > 0 and (ds[i] == i or lab[ds[i]] != lab[i]))
+        expo = [[p[0] for p in prs], [p[1] for p in prs]]
+        return None if out[2:] == expo else ("basin_outlets:api", f"expected {expo} got {out[2:]} for basins {lab}")
     return None
 
 
@@ -181,6 +194,8 @@ def compare(case, impl_out, model_out):
         # ties among equal labels are left to argsort: compare as sorted (label, cell) pairs
         prs = sorted(zip(model_out[0], model_out[1]))
         model_out = [[p[0] for p in prs], [p[1] for p in prs]]
+    if case["k"] == 503:
+        return impl_out[:2] == model_out[:2]
     return impl_out == model_out
 
 
@@ -188,6 +203,6 @@ def nontrivial(case, out):
     k, a = case["k"], case["args"]
     if k in (501, 503) and len(out) >= 1 and isinstance(out[-1], list):
         ds = a[0]
-        lab = out[-1]
+        lab = out[1] if k == 503 and len(out) > 1 else out[-1]
         return any(ds[i] >= 0 and ds[i] != i and lab[i] != 0 for i in range(min(len(ds), len(lab))))
     return True
